@@ -248,6 +248,10 @@ func c03PeriodCase(t *rapid.T, st *verifkit.Stats, align bool) {
 		st.Eval()
 		e := c03Server(t)
 		e.mr.FlushAll()
+		// <= 2 injected failures per case against >= 12 accepted commands: the client's breaker
+		// (rejects when failures exceed 5 + accepts/2 in its window) stays closed even while
+		// rapid shrinks towards cases that consist of little more than the faults
+		e.pad(12)
 		w := &c03PWorld{
 			period: rapid.IntRange(1, 5).Draw(t, "period"),
 			quota:  rapid.IntRange(1, 8).Draw(t, "quota"),
